@@ -72,6 +72,7 @@ impl ReplSim {
         }
         let runner = &mut self.runner;
         let ctx = &mut self.ctx;
+        crate::sess::hook_idle();
         let r = trap(|| runner.try_run_command(line, ctx, &mut ()));
         match r {
             Err(p) => {
